@@ -5,6 +5,7 @@ import Ecal.Lemmas.C08Minimal
 import Ecal.Lemmas.C08QuoteReal
 import Ecal.Lemmas.C08Templates
 import Ecal.Lemmas.C08Splice
+import Ecal.Lemmas.C08RealParse
 /-!
 # C08 — formatting preserves program meaning and is idempotent
 
@@ -14,7 +15,8 @@ Which theorem is about which model:
   depth over the infix/prefix operators and binding powers of the REAL table (`Ecal.Gen.C08`, regenerated
   from parser.go / prettyprinter.go on every run), the Pratt parser (`run`, `ndPrefix`, `ldInfix`,
   `ndInner`), and the printer restricted to operator trees (children first, parentheses by
-  `ppNeedsBrackets`). Theorems `printer_brackets_suffice`, `print_parse_expr_partial`,
+  `ppNeedsBrackets` — `annotW br` for any rule `br`; the drivers run `br = realBr`, the rule extracted from the
+  Go source). Theorems `printer_brackets_suffice`, `print_parse_expr_partial`, `print_parse_expr_real_rule_partial`,
   `print_idempotent_expr_partial`, `mul_right_brackets_witness` are about this model.
 * **Real printer and lexer models**: `quote_lex_roundtrip` is about `Ecal.Print.quote` (Printer.lean) and
   `Ecal.Lex.lexValue` (Lexer.lean) — the functions the drivers of C08 / C07 / C18 run.
@@ -45,22 +47,48 @@ theorem gen_table_ok : tableOk = true := by decide
 /-- The real table has the operators the model talks about (non-vacuity of everything below). -/
 theorem gen_table_nonempty : infixOps.length ≥ 19 ∧ prefixOps.length ≥ 3 := by decide
 
-/-- On every pair of operator heads of the real table and every child index, the expression-level
-    rule `nb` is the rule extracted from prettyprinter.go — an obligation whenever `ppNeedsBrackets` could be
-    translated (`shapeOk`; the translator accepts if/switch/early-return forms, set literals and inlined
-    helpers). If it could not, the rule is "not established": the check says so in its evidence and runs
-    the exhaustive depth-2/3 operator nestings through the real printer instead. -/
-theorem abstract_rule_is_generated_rule : shapeOk = true →
-    (allHeads.all fun p => allHeads.all fun c => [0, 1, 2].all fun i => [true, false].all fun pure =>
-      nb realPowers realExc p c i pure == needsBrackets (bnOf p) (bnOf c pure) i) = true := by decide
+/-- Boolean form of sufficiency over the real table: wherever parentheses are NECESSARY (`need`), the rule `br`
+    writes them — except at the known exception (right operand under a product with a pure chain) -/
+def suffCheck (br : Head → Head → Nat → Bool → Bool) : Bool :=
+  allHeads.all fun p => allHeads.all fun c => [0, 1].all fun i => [true, false].all fun pure =>
+    !(need realPowers p c i) || br p c i pure ||
+      (match p, c with | .bin K, .bin k => decide (i > 0) && realExc K k && pure | _, _ => false)
 
-/-- … and so is the rule of the full printer model (Printer.lean); for `pure = false` the child node carries
-    a left operand `%` of its own binding, so that the model's own `isProductChain` answers false where the
-    chain test is reached. -/
-theorem model_rule_is_generated_rule : shapeOk = true →
-    (allHeads.all fun p => allHeads.all fun c => [0, 1, 2].all fun i => [true, false].all fun pure =>
-      Ecal.Print.needsBrackets (nodeOf p) (nodeOf c pure) i ==
-        needsBrackets (bnOf p) (bnOf c (Ecal.Print.isProductChain (nodeOf c pure) (nodeOf p).binding)) i) = true := by decide
+/-- **The bracket rule EXTRACTED from prettyprinter.go suffices** on the real table — an obligation whenever
+    `ppNeedsBrackets` could be translated (`shapeOk`). It demands sufficiency, not equality with a hand-written
+    rule: a printer edit that writes MORE parentheses keeps it true, one that drops necessary parentheses breaks
+    it. (If the rule could not be translated it is "not established": the check says so in its evidence and runs
+    the exhaustive depth-2/3 operator nestings through the real printer instead.) -/
+theorem generated_rule_suffices : shapeOk = true → suffCheck genBr = true := by decide
+
+/-- the hand port in Printer.lean (the fallback the printer model runs when the rule is not established) suffices -/
+theorem hand_port_suffices :
+    suffCheck (fun p c i pure => Ecal.Print.needsBrackets (nodeOf p) (nodeOf c pure) i) = true := by decide
+
+theorem suff_of_check (br : Head → Head → Nat → Bool → Bool) (h : suffCheck br = true) :
+    Suff realPowers realExc br inTable := by
+  intro p c i pure hp hc hi hn
+  have hp' : p ∈ allHeads := by simpa [inTable] using hp
+  have hc' : c ∈ allHeads := by simpa [inTable] using hc
+  have hi' : i ∈ [0, 1] := by
+    have : i = 0 ∨ i = 1 := by omega
+    rcases this with rfl | rfl <;> simp
+  have hpu : pure ∈ [true, false] := by cases pure <;> simp
+  have := List.all_eq_true.mp (List.all_eq_true.mp (List.all_eq_true.mp (List.all_eq_true.mp h p hp') c hc') i hi') pure hpu
+  simp only [hn, Bool.not_true, Bool.false_or, Bool.or_eq_true] at this
+  rcases this with h1 | h2
+  · exact Or.inl h1
+  · right
+    cases p with
+    | atom => simp at h2
+    | pre K => simp at h2
+    | bin K =>
+      cases c with
+      | atom => simp at h2
+      | pre k => simp at h2
+      | bin k =>
+        simp only [Bool.and_eq_true, decide_eq_true_eq] at h2
+        exact ⟨K, k, rfl, rfl, h2.1.1, h2.1.2, h2.2⟩
 
 /-- **Bracket rule of `return <value>`** (fixes/C08-return-operand-brackets): under every operator head of
     the real table — infix, prefix, `let`, `not`, sink attribute, either side — a return with a value is
@@ -139,6 +167,41 @@ theorem print_parse_expr_partial (e : Expr) (h : hasExc realPowers realExc e = f
 example : run realPowers 20 0 (printToks realPowers realExc
     (Expr.bin 1 (Expr.atom 0) (Expr.bin 1 (Expr.atom 1) (Expr.pre 2 (Expr.atom 2))))) =
     some (Expr.bin 1 (Expr.atom 0) (Expr.bin 1 (Expr.atom 1) (Expr.pre 2 (Expr.atom 2))), []) := by decide
+
+/-- the rule the driver's printers run (`realBr`: the extracted rule when established, else `nb`) suffices on the
+    real table -/
+theorem real_rule_suffices : Suff realPowers realExc realBr inTable := by
+  unfold realBr
+  by_cases h : shapeOk = true
+  · rw [if_pos h]; exact suff_of_check genBr (generated_rule_suffices h)
+  · rw [if_neg h]
+    intro p c i pure _ _ hi hn
+    exact nb_suff realPowers realExc real_bp_pos real_exc_tight p c i pure rfl rfl hi hn
+
+/-- **parse (print e) = e with the rule the printer models RUN** (`Ecal.C08.realBr` — `Ecal.Gen.C08.needsBrackets`
+    regenerated from the Go source; the full printer model `Ecal.Print.visit` applies the same extracted rule):
+    for every operator tree of any depth over the real table, outside the known class mul-right-brackets, the
+    fuel-indexed Pratt parser reads the printed tokens back to exactly `e`. -/
+theorem print_parse_expr_real_rule_partial (e : Expr) (hin : headsIn inTable e = true)
+    (h : hasExc realPowers realExc e = false) :
+    ∃ fuel, run realPowers fuel 0 (annotW realPowers realExc realBr e).flat = some (e, []) := by
+  have hok := annotW_ok realPowers realExc realBr inTable real_bp_pos real_rule_suffices e 0 0 hin h
+    (adm_zero realPowers real_bp_pos e)
+  have hr := admissible_parses realPowers _ hok
+  rw [strip_annotW] at hr
+  exact Run.toFun realPowers hr
+
+/-- **Any sufficient rule works**: more parentheses than necessary never hurt. -/
+theorem print_parse_expr_any_sufficient_rule (br : Head → Head → Nat → Bool → Bool) (ok : Head → Bool)
+    (hs : Suff realPowers realExc br ok) (e : Expr) (hin : headsIn ok e = true)
+    (h : hasExc realPowers realExc e = false) :
+    ∃ fuel, run realPowers fuel 0 (annotW realPowers realExc br e).flat = some (e, []) := by
+  have hok := annotW_ok realPowers realExc br ok real_bp_pos hs e 0 0 hin h (adm_zero realPowers real_bp_pos e)
+  have hr := admissible_parses realPowers _ hok
+  rw [strip_annotW] at hr
+  exact Run.toFun realPowers hr
+
+example : headsIn inTable (Expr.bin 1 (Expr.atom 0) (Expr.bin 1 (Expr.atom 1) (Expr.pre 2 (Expr.atom 2)))) = true := by decide
 
 /-- **Idempotence on operator trees**: printing what the parser reads from the printed text gives the
     same text (comment-free, blank-line-free expressions; outside `mul-right-brackets`). -/
@@ -351,6 +414,94 @@ theorem parser_reads_prefix (f rbp bb : Nat) (t h : Ecal.Lex.Tok) (ts' : List Ec
     Ecal.Parse.run (f+3) rbp (TP.st bb (TP.nodeOf bb t) (h :: ts')) =
       .ok ((TP.nodeOf bb t).add (some v)) (TP.st bb nxn rest) :=
   TP.run_prefix f rbp bb t h ts' v nxn rest hh hpre hole hb
+
+/-! ## parse (print e) = e on the REAL parser model
+
+`Ecal.Parse.run` is the parser model of C07 (`parse_wellformed`); `RP.realToks` assigns to every abstract token of the
+printed tree a real token of the table in Parser.lean (numbers for atoms), `RP.nodeE` is the node tree the real
+parser builds. `RP.table_agrees` (by `decide`) ties Parser.lean's table to the operator table regenerated from
+parser.go. -/
+
+/-- the heads of the real table whose keyword is parsed by ndPrefix (not `return`) -/
+def okHead : Head → Bool
+  | .atom => true
+  | .bin k => RP.okB k
+  | .pre k => RP.okP k
+
+theorem okHead_inTable (h : Head) (hk : okHead h = true) : inTable h = true := by
+  cases h with
+  | atom => decide
+  | bin k =>
+    have : k < infixOps.length := by simpa [okHead, RP.okB] using hk
+    simp only [inTable, allHeads, List.contains_eq_mem, List.mem_cons, List.mem_append, List.mem_map, List.mem_range,
+      decide_eq_true_eq]
+    exact Or.inr (Or.inl ⟨k, this, rfl⟩)
+  | pre k =>
+    have : k < prefixOps.length := by
+      simp only [okHead, RP.okP, Bool.and_eq_true, decide_eq_true_eq] at hk; exact hk.1
+    simp only [inTable, allHeads, List.contains_eq_mem, List.mem_cons, List.mem_append, List.mem_map, List.mem_range,
+      decide_eq_true_eq]
+    exact Or.inr (Or.inr ⟨k, this, rfl⟩)
+
+theorem pIn_annotW (br : Head → Head → Nat → Bool → Bool) (e : Expr) (h : headsIn okHead e = true) :
+    RP.pIn RP.okB RP.okP (annotW realPowers realExc br e) = true := by
+  induction e with
+  | atom n => rfl
+  | bin k l r ihl ihr =>
+    simp only [headsIn, Bool.and_eq_true, okHead] at h
+    have hw : ∀ b p, RP.pIn RP.okB RP.okP (wrap b p) = RP.pIn RP.okB RP.okP p := by
+      intro b p; cases b <;> simp [wrap, RP.pIn]
+    simp only [annotW, RP.pIn, hw, h.1.1, ihl h.1.2, ihr h.2, Bool.and_self]
+  | pre k x ih =>
+    simp only [headsIn, Bool.and_eq_true, okHead] at h
+    have hw : ∀ b p, RP.pIn RP.okB RP.okP (wrap b p) = RP.pIn RP.okB RP.okP p := by
+      intro b p; cases b <;> simp [wrap, RP.pIn]
+    simp only [annotW, RP.pIn, hw, h.1, ih h.2, Bool.and_self]
+
+/-- **parse (print e) = e on the real parser model, with the rule the printer models run.** For every operator
+    tree `e` of any depth over the real table (infix operators; prefix `+ - not let` and the sink attributes; number
+    atoms), outside the known class mul-right-brackets: the REAL parser model `Ecal.Parse.run`, started on the real
+    tokens of the printed tree (parentheses by `realBr`, the rule extracted from prettyprinter.go) followed by an
+    end-of-input token, returns exactly the node tree of `e` and stops at the end token — for every fuel from
+    `1 + cost` on.
+    (`_partial`: `return <value>` operands, identifier atoms with their call / access chains, comments and line
+    breaks inside the expression are not covered; the printed TEXT is tied to these tokens by the correspondence run
+    and by `quote_lex_roundtrip` for string atoms, not by a lexer theorem.) -/
+theorem print_parse_expr_real_parser_partial (e : Expr) (hin : headsIn okHead e = true)
+    (hne : hasExc realPowers realExc e = false) (eof : Ecal.Lex.Tok) (heof : TP.Real eof)
+    (hb : (TP.nodeOf 0 eof).binding = 0) (F : Nat)
+    (hF : 1 + RP.cost (annotW realPowers realExc realBr e) ≤ F) :
+    Ecal.Parse.run F 0 (TP.st 0 (TP.nodeOf 0 (RP.hdT RP.realToks (annotW realPowers realExc realBr e)))
+        (RP.tlT RP.realToks (annotW realPowers realExc realBr e) ++ [eof])) =
+      .ok (RP.nodeE RP.realToks e) (TP.st 0 (TP.nodeOf 0 eof) []) := by
+  have hin' : headsIn inTable e = true := by
+    clear hne hF
+    induction e with
+    | atom n => rfl
+    | bin k l r ihl ihr =>
+      simp only [headsIn, Bool.and_eq_true] at hin ⊢
+      exact ⟨⟨okHead_inTable _ hin.1.1, ihl hin.1.2⟩, ihr hin.2⟩
+    | pre k x ih =>
+      simp only [headsIn, Bool.and_eq_true] at hin ⊢
+      exact ⟨okHead_inTable _ hin.1, ih hin.2⟩
+  have hok := annotW_ok realPowers realExc realBr inTable real_bp_pos real_rule_suffices e 0 0 hin' hne
+    (adm_zero realPowers real_bp_pos e)
+  have := RP.real_ok_parses RP.realToks realPowers RP.okB RP.okP RP.good_realToks
+    (annotW realPowers realExc realBr e) 0 0 0 (Nat.le_refl _) hok (pIn_annotW realBr e hin) eof []
+    (.ok (RP.nodeE RP.realToks e) (TP.st 0 (TP.nodeOf 0 eof) [])) 1 heof (Nat.le_of_eq hb)
+    (by
+      intro F2 hF2
+      obtain ⟨f2, rfl⟩ : ∃ f2, F2 = f2 + 1 := ⟨F2 - 1, by omega⟩
+      rw [strip_annotW]
+      exact TP.loopLed_stop f2 0 0 _ _ [] (Nat.le_of_eq hb))
+    F hF
+  exact this
+
+/-- non-vacuity: `2 * (3 + 4) <EOF>` and `not (1 and 2)`-shaped trees satisfy the hypotheses -/
+example : headsIn okHead (Expr.bin iTimes (.atom 2) (.bin 0 (.atom 3) (.atom 4))) = true ∧
+    hasExc realPowers realExc (Expr.bin iTimes (.atom 2) (.bin 0 (.atom 3) (.atom 4))) = false ∧
+    TP.Real (RP.mkTok 1) ∧ (TP.nodeOf 0 (RP.mkTok 1)).binding = 0 := by
+  refine ⟨by decide, by decide, by unfold TP.Real; decide, by decide⟩
 
 /-- non-vacuity: the tokens `true <EOF>` and `not true <EOF>` satisfy the hypotheses — `not true` is read
     back as `not(true)` by instantiating both lemmas -/
